@@ -504,6 +504,9 @@ func c08r5(c *core.Ctx) {
 		for _, e := range core.FindCalls(f, isEncryptInvoke) {
 			recv := core.CallOf(e).Value
 			okLookup := core.AllSources(recv, func(s ssa.Value) bool {
+				if core.IsNilConst(s) {
+					return true // "no session" of a getter written out; a nil encrypter is tested before it is used (C10-R5)
+				}
 				call, ok := s.(*ssa.Call)
 				if !ok {
 					return false
@@ -1975,6 +1978,41 @@ func errorTestPolarity(c *core.Ctx, f *ssa.Function, signals func(ssa.Instructio
 						}
 					}
 				}
+			}
+		}
+		// phantom paths: a merged error variable that on this path holds a freshly made error ( err = fmt.Errorf(...) inside an
+		// inlined helper ) cannot be nil at the test that follows, and one that holds the nil constant cannot be non-nil
+		for m := 0; m+1 < len(pa); m++ {
+			iff, ok := pa[m].Instrs[len(pa[m].Instrs)-1].(*ssa.If)
+			if !ok {
+				continue
+			}
+			bo, ok := iff.Cond.(*ssa.BinOp)
+			if !ok || (bo.Op != token.EQL && bo.Op != token.NEQ) {
+				continue
+			}
+			var x ssa.Value
+			switch {
+			case core.IsNilConst(bo.Y):
+				x = bo.X
+			case core.IsNilConst(bo.X):
+				x = bo.Y
+			default:
+				continue
+			}
+			if _, isPhi := x.(*ssa.Phi); !isPhi || x.Type().String() != "error" {
+				continue
+			}
+			r := pa.ResolveAt(m, x)
+			if _, still := r.(*ssa.Phi); still {
+				continue
+			}
+			tookNil := (bo.Op == token.EQL && pa[m+1] == pa[m].Succs[0]) || (bo.Op == token.NEQ && pa[m+1] == pa[m].Succs[1])
+			if core.IsNilConst(r) && !tookNil {
+				return
+			}
+			if call, isCall := r.(*ssa.Call); isCall && tookNil && (core.IsCall(call, "fmt.Errorf") || core.IsCall(call, "errors.New")) {
+				return
 			}
 		}
 		for k := 0; k+1 < len(pa); k++ {
